@@ -50,6 +50,8 @@ def build_phase(prop, result):
         drv = prop.drv or prop.id
         ok, out = core.lake_build([f'drv_{drv}'])
         b['driver_ok'] = ok
+        if ok:
+            core.privatise_driver(drv)
         if not ok:
             b['broken'] += [f'model/driver build: {n}' for n in core.failing_decls(out)] or ['model/driver build']
             log(out[-3000:])
